@@ -406,9 +406,9 @@ def audit_sources(ctx, files):
     return bad
 
 
-def audit_axioms(ctx, module, theorems):
+def audit_axioms(ctx, module, theorems, also=()):
     """`#print axioms` of every property theorem; returns dict name -> set(axioms) (None if it does not exist)."""
-    src = f"import {module}\n" + "\n".join(f"#print axioms {t}" for t in theorems) + "\n"
+    src = f"import {module}\n" + "".join(f"import {m}\n" for m in also) + "\n".join(f"#print axioms {t}" for t in theorems) + "\n"
     os.makedirs(os.path.join(BUILD, "audit"), exist_ok=True)
     path = os.path.join(BUILD, "audit", f"{ctx.prop}_{module.replace('.', '_')}.lean")
     with open(path, "w") as f:
@@ -450,7 +450,7 @@ def prove(ctx, module, theorems, extra_targets=(), files=()):
         failing.append(("audit:" + b, {"file": b, "line": 0, "msg": "forbidden construct"}))
     axioms_seen = set()
     if ok:
-        ax, text = audit_axioms(ctx, module, theorems)
+        ax, text = audit_axioms(ctx, module, theorems, also=[t for t in extra_targets if t.startswith("Rspirv.")])
         for t in theorems:
             a = ax.get(t)
             if a is None:
